@@ -440,6 +440,8 @@ theorem handlePubrec_np (e : Engine) (a : Ack) (hok : e.core.Ok) : (e.handlePubr
         split
         · split
           · split
+            · exact Res.NP.err _
+            split
             · split
               · exact Res.NP.err _
               · exact completeSuccess_np e opId _ hok (fun hh => by cases hh)
